@@ -12,6 +12,7 @@ Inductive case03 :=
 | CCube (ctrl : list pt) (tol : Q) (ok : bool) (vs : list pt) (ts : list Q) (wit : list (Q * Q))
 | CCirc (a : circ_arc) (tol : Q) (ok : bool) (vs : list pt)
 | CArcCube (e : ellipse) (ok : bool) (cubics : list (list pt))
+| CEll (e : ellipse) (s t : pt) (large sweep : bool) (tol : Q) (ok : bool) (vs : list pt)
 | CXMono (ctrl : list pt) (ok : bool) (pieces : list (list pt)) (ts : list Q)
 | CPub (op : Z) (ok : bool) (inp out : list subpath_sum).
 
@@ -77,6 +78,7 @@ Definition judge (c : case03) : list Z :=
                 (chk_flat_cube p0 p1 p2 p3 ts vs tol Kcube slack) Kcube tol ok vs ts wit
   | CCirc a tol ok vs => judge_circ a tol Kcirc slack ok vs
   | CArcCube e ok cubics => judge_arccube e ok cubics
+  | CEll e s t large sweep tol ok vs => judge_ellflat e s t large sweep tol Kcirc slack ok vs
   | CXMono ctrl ok pieces ts => judge_xmono ctrl slack ok pieces ts
   | CPub op ok inp out => judge_pub op ok inp out
   | _ => [64%Z; 0%Z; 0%Z; 0%Z; 0%Z]
